@@ -14,3 +14,4 @@ package main
 //@   ensures[other-directives] has(conversion, "y") && conversion["y"] == "06" && has(conversion, "B") && conversion["B"] == "January" && has(conversion, "b") && conversion["b"] == "Jan" &&
 //@        has(conversion, "A") && conversion["A"] == "Monday" && has(conversion, "a") && conversion["a"] == "Mon" && has(conversion, "I") && conversion["I"] == "03" &&
 //@        has(conversion, "p") && conversion["p"] == "PM" && has(conversion, "Z") && conversion["Z"] == "MST" && has(conversion, "z") && conversion["z"] == "-0700"
+
